@@ -39,6 +39,8 @@ type C08Case struct {
 	RelK     int    `json:"rel_k"`
 	RelPerm  []int  `json:"rel_perm"`
 	RelCpus  int    `json:"rel_cpus"`
+	Reuse    bool   `json:"reuse_model,omitempty"` // the transformed presentation is computed by the model object that served for the run under test (one object per process in compute distance / build distboot)
+	served   dna.DistModel
 	RunFirst bool   `json:"run_first,omitempty"` // the run under test comes before the one-worker reference (a process that has computed nothing yet starts with several workers)
 	RelPol   int    `json:"rel_policy"`
 	Choices  []int  `json:"choices"`
@@ -245,6 +247,7 @@ func (c08) Gen(rs uint64, tier string, race bool) interface{} {
 		c.RelPol = r.Pick(PolUniform, PolSticky, PolPCT, PolStarve)
 	}
 	c.RunFirst = r.Bool()
+	c.Reuse = r.Chance(0.4)
 	return c
 }
 
@@ -395,6 +398,9 @@ func (c *C08Case) runDist(ctx *Ctx, rows []string, weights []float64, cpus int, 
 	real, err := c.newModel()
 	if err != nil {
 		return dr, err
+	}
+	if c.served != nil {
+		real, c.served = c.served, nil // a model object that has already served for another alignment
 	}
 	sm := &simModel{real: real, failDist: failDist, failSeq: failSeq}
 	rg := []int{-1, -1, -1, -1}
@@ -651,7 +657,13 @@ func (c08) Run(ctx *Ctx, ci interface{}) (o Outcome) {
 		return
 	}
 	cfg2 := SchedCfg{Seed: Mix(c.Seed, "rel"), Policy: c.RelPol, Choices: c.RelCh, Strict: ctx.Strict, MaxSteps: budget * (c.RelK + 1)}
+	maRun := substituted(&run, c.Weights, n) // asked before the model object may serve again
+	if c.Reuse && run.model != nil {
+		c.served = run.model
+		o.Add("relation_with_a_model_that_already_served", 1)
+	}
 	rel, _ := c.runDist(ctx, rows2, w2, c.RelCpus, cfg2, nil, nil)
+	c.served = nil
 	if rel.sr.Diverged != "" {
 		ctx.Diverged = rel.sr.Diverged
 		return
@@ -672,7 +684,7 @@ func (c08) Run(ctx *Ctx, ci interface{}) (o Outcome) {
 	// pairs whose model distance is not an ordinary number under either presentation get the matrix-wide
 	// substitute (twice the largest ordinary distance, which may be small): "up to rounding" says nothing of them,
 	// a saturated estimator is log(0) under one presentation and log(1e-16) under the other
-	ma, mb := substituted(&run, c.Weights, n), substituted(&rel, w2, n)
+	ma, mb := maRun, substituted(&rel, w2, n)
 	if c.Relation == "rowperm" {
 		pm := make([][]bool, n)
 		for i := range pm {
